@@ -64,6 +64,7 @@ class Interp(object):
         self.rets = set()
         self.collecting = False
         self.events = []     # ordered (within the final pass) list of (inst, atom)
+        self.call_events = []   # (call inst, abstract args) for every call reached in the final pass
 
     # ---------------------------------------------------------------- values
     def val(self, o):
@@ -402,6 +403,8 @@ class Interp(object):
                 if self.collecting:
                     self._store_atom(ins, d[1], TOP, state)
             return
+        if self.collecting:
+            self.call_events.append((ins, args))
         res = self.part.stub(self, ins, args, state) if hasattr(self.part, "stub") else None
         if self.collecting and callee in self.atom_spec:
             self._call_atom(ins, args, state)
